@@ -856,6 +856,38 @@ def check_C06(ctx):
             res.failures.append(dict(kind='typedefs-do-not-mirror-declarations', src=s, impl=short(got, 600), expected=short(exp, 600), detail=bad))
         elif y is not None and x != y:
             res.disagreements.append(disagreement('generate', s, x, y))
+    # the same oracle on many more grammars that are NOT compiled (any payload types, names related to one another, payload types
+    # related to their neighbours' and spelled like nonterminals): the definitions are compared as text
+    extra = []
+    for _ in range(ctx.n(400, 8000)):
+        g = gen.gen_grammar(ctx.rng, max_nts=5, max_terms=5, name_relations=0.6, payload_like_nt=0.3, empty_helper_enum=0.05)
+        if ctx.rng.random() < 0.5:
+            gen.relate_adjacent_types(ctx.rng, g)
+        extra.append((g, gen.render(ctx.rng, g, ctx.rng.choice(['plain', 'random']))))
+    xr = vlib.run_rust('gen', checks.hex_lines([s for _, s in extra]))
+    xm = vlib.run_model('gen', checks.gen_lines([s for _, s in extra])) if ctx.model_ok else [None] * len(extra)
+    ntext = 0
+    for (g, s), x, y in zip(extra, xr, xm):
+        if y is not None and x != y:
+            res.disagreements.append(disagreement('generate', s, x, y))
+            continue
+        if not x.startswith('Ok(x'):
+            res.evaluations += 1
+            continue
+        ntext += 1
+        res.count(s, any(fs[0] != 'empty' for _, _, fs in g.rules()))
+        text = decode_ok(x)
+        try:
+            defs = oracles.split_typedefs(oracles.typedef_region(text))
+            got = [(h, [l.strip() for l in b if l.strip()]) for _, h, b in defs if h is not None][1:]
+            exp = oracles.expected_typedefs(g)
+            flat = lambda d: [oracles.retokenise_type(z) for h, b in d for z in [h] + b]
+            bad1 = None if flat(got) == flat(exp) else 'type definitions differ from the declarations'
+        except Exception as e:
+            bad1, got, exp = 'unreadable type definitions: %r' % (e,), None, None
+        if bad1:
+            res.failures.append(dict(kind='typedefs-do-not-mirror-declarations', src=s, impl=short(got, 600), expected=short(exp, 600), detail=bad1))
+    res.extra['typedefs_compared_as_text_only'] = ntext
     bad, out = compile_modules('c06', grammars, with_clients=True)
     if bad:
         bad = isolate('c06', grammars, bad, True)
